@@ -230,7 +230,9 @@ def r3_error_propagation(ctx):
             ok = "Err" in downs and not fresh
             ctx.check(ok, R, "%s|awaiter.result=Err" % key, "the stored error is the Err payload of the awaited process's result (cloned), not a new error",
                       "the awaiter is failed with an error that is not the awaited process's own error", b.loc(bi, si))
-        ctx.floor(R, "awaiter error writes in " + key.split("::")[-1], n, 1)
+        if n == 0:
+            ctx.violated(R, "%s|awaiter.result=Err|missing" % key, "%s no longer fails an awaiter with the awaited process's error: a process awaiting a failed "
+                         "process never learns of the failure" % key.split("::")[-1], b.loc(0))
 
 
 def r4_latest_answer_replaces(ctx):
